@@ -1050,4 +1050,53 @@ Proof.
 Qed.
 Theorem for_done f var idxv ks idx acc bb c : for_iter (S f) var idxv ks [] idx acc bb c = (Ok (acc, bb), c).
 Proof. rewrite for_iter_S. reflexivity. Qed.
+
+(* ================= reuse and specs (C18) ================= *)
+(* an instantiation gives back exactly the scope stack and element stack it found, whatever happens inside:
+   the bindings of one instance never reach the next one *)
+Theorem reuse_scopes_exact fuel e c r c' : nn c -> gen_reuse fuel e c = (r, c') ->
+  px_scopes c' = px_scopes c /\ px_estack c' = px_estack c.
+Proof.
+  intros Hn H. destruct fuel as [|f]; [cbn in H; injection H as <- <-; split; reflexivity|].
+  rewrite gen_reuse_S in H. cbv zeta in H. unfold Pipeline.rbind in H.
+  destruct (eval_attributes e c) as [[re| | |] c1] eqn:Ea; pose proof (eval_attributes_lonly _ _ _ _ Ea) as (L1 & L2 & L3 & _);
+    try (injection H as <- <-; split; assumption).
+  assert (Hn1 : nn c1) by (unfold nn in *; lia).
+  destruct (match eget N re "href" with Some _ => _ | None => _ end) as [r3 c3] eqn:E3.
+  injection H as <- <-.
+  assert (I3 : inv (push_element c1 re) c3).
+  { revert E3.
+    destruct (eget N re "href") as [h|]; [|intros E; injection E as <- <-; apply inv_refl].
+    destruct (parse_elref h) as [rf|]; [|intros E; injection E as <- <-; apply inv_refl].
+    match goal with |- (match ?t with Some _ => _ | None => _ end) = _ -> _ => destruct t as [target|] end;
+      [|intros E; injection E as <- <-; apply inv_refl].
+    destruct (instantiate (push_element c1 re) re target) as [[inst| | |] l]; try (intros E; injection E as <- <-; apply inv_with_l).
+    assert (Il : inv (push_element c1 re) (with_l (push_element c1 re) l)) by apply inv_with_l.
+    destruct (eempty N inst).
+    - intros E. eapply inv_trans; [exact Il | eapply gen_frame; [exact Hn1 | exact E]].
+    - destruct (kidtab (eidx N target)); intros E; (eapply inv_trans; [exact Il|]);
+        [eapply process_events_frame; [exact Hn1 | exact E] | eapply gen_frame; [exact Hn1 | exact E]]. }
+  destruct I3 as (S1 & [top' S2] & _). cbn. rewrite S1, S2. cbn. split; assumption.
+Qed.
+
+(* <specs> renders nothing *)
+Theorem specs_renders_nothing fuel e kids c ev b c' : gen_specs fuel e kids c = (Ok (ev, b), c') -> ev = [] /\ b = None.
+Proof.
+  intros H. destruct fuel as [|f]; [cbn in H; discriminate|]. rewrite gen_specs_S in H. cbv zeta in H.
+  destruct (px_specs c); [discriminate|]. destruct kids as [ks|]; [|injection H as <- <- _; split; reflexivity].
+  destruct (process_events f ks (with_specs c true)) as [[x| | |] c1]; try discriminate.
+  injection H as <- <- _. split; reflexivity.
+Qed.
+(* the template used by reuse is the FIRST registration of an id: later registrations never change it *)
+Theorem original_is_first_registration c e id0 e0 : assoc id0 (l_orig (px_l c)) = Some e0 ->
+  (forall i, assoc i (l_orig (px_l c)) <> None -> assoc i (Pipeline.l_map N ES (px_l c)) <> None) ->
+  assoc id0 (l_orig (px_l (update_element c e))) = Some e0.
+Proof.
+  intros H Hinv. unfold Pipeline.update_element. destruct (eget N e "id") as [idv|]; [|exact H].
+  cbn [Pipeline.px_l Pipeline.with_l Pipeline.l_orig].
+  set (idv' := match eva _ _ idv _ with Ok (s0, _) => s0 | _ => idv end).
+  destruct (assoc idv' (Pipeline.l_map N ES (px_l c))) eqn:Em; [exact H|].
+  cbn [assoc]. destruct (String.eqb id0 idv') eqn:Eq; [|exact H].
+  apply String.eqb_eq in Eq. subst idv'. exfalso. apply (Hinv id0); [rewrite H; discriminate | rewrite Eq; exact Em].
+Qed.
 End P.
